@@ -196,6 +196,10 @@ func (m *MRTMessage) Serialize() ([]byte, error) {
 		return nil, err
 	}
 	m.Header.Len = uint32(len(buf))
+	if m.Header.Type.HasExtendedTimestamp() {
+		// RFC 6396 section 3: Length includes the microsecond timestamp field
+		m.Header.Len += 4
+	}
 	bbuf, err := m.Header.Serialize()
 	if err != nil {
 		return nil, err
@@ -993,8 +997,17 @@ func SplitMrt(data []byte, atEOF bool) (advance int, token []byte, err error) {
 }
 
 func ParseBody(data []byte, h *MRTHeader) (*MRTMessage, error) {
-	if len(data) < int(h.Len) {
-		return nil, fmt.Errorf("not all MRT message bytes available. expected: %d, actual: %d", int(h.Len), len(data))
+	bodyLen := int(h.Len)
+	if h.Type.HasExtendedTimestamp() {
+		// RFC 6396 section 3: Length includes the 4-octet microsecond timestamp,
+		// which ParseHeader has already consumed as part of the header.
+		if bodyLen < 4 {
+			return nil, fmt.Errorf("MRT message length %d is too short for an extended timestamp", bodyLen)
+		}
+		bodyLen -= 4
+	}
+	if len(data) < bodyLen {
+		return nil, fmt.Errorf("not all MRT message bytes available. expected: %d, actual: %d", bodyLen, len(data))
 	}
 	var err error
 	var body Body
@@ -1039,7 +1052,7 @@ func ParseBody(data []byte, h *MRTHeader) (*MRTMessage, error) {
 		if body == nil {
 			body, err = parseRib(data, rf, isAddPath)
 		}
-	case BGP4MP:
+	case BGP4MP, BGP4MP_ET:
 		subType := MRTSubTypeBGP4MP(h.SubType)
 		isAS4 := true
 		switch subType {
